@@ -119,6 +119,7 @@ def run(ctx):
                     paths = []
                 effs = set()
                 feasible = 0
+                partial = 0
                 for p in paths:
                     if p.end != head:
                         continue
@@ -137,18 +138,26 @@ def run(ctx):
                         continue
                     feasible += 1
                     cur = st
+                    mine = set()
                     for e in p.events:
                         if e[0] == "set" and e[1].endswith(".status"):
                             cur = e[2]
                         if e[0] == "call":
                             if e[1] == c.WOB + "delete":
-                                effs.add("delete")
+                                mine.add("delete")
                             elif e[1] == c.WOB + "save":
-                                effs.add("save:%s" % cur)
+                                mine.add("save:%s" % cur)
                             elif e[1] in (c.WOB + "lock_output",):
-                                effs.add("lock")
+                                mine.add("lock")
+                    effs |= mine
+                    if mine != ROLLBACK[st]:
+                        partial += 1
                 table[st] = effs
                 held = effs == ROLLBACK[st] and feasible > 0
+                if held and partial:
+                    # some way through the loop body completes the iteration without the write(s) of this status
+                    run.instance(R3, {"fn": "cancel_tx_and_outputs", "status": st, "obligation": "every way through the loop body performs the rollback write", "paths without it": partial}, held=False)
+                    run.finding(Finding(R3, cid, "output status %s: an iteration can complete without its rollback write (%s): the record keeps its status while the entry is cancelled" % (st, sorted(ROLLBACK[st])), site=cf.loc()))
                 run.instance(R3, {"fn": "cancel_tx_and_outputs", "status": st, "effects": sorted(effs), "expected": sorted(ROLLBACK[st]), "feasible_paths": feasible}, held=held)
                 if not held:
                     run.finding(Finding(R3, cid, "output status %s: effects %s, expected %s" % (st, sorted(effs), sorted(ROLLBACK[st])), site=cf.loc()))
